@@ -10,6 +10,7 @@
 #undef private
 
 #include <nstd/Error.hpp>
+#include <unistd.h>
 
 // where the dump functions write: stdout, or a memory stream while an answer is collected as a string
 static FILE* O = 0;
@@ -34,12 +35,14 @@ static void dump(const Xml::Element& e, bool pos);
 
 static void dumpv(const Xml::Variant& v, bool pos)
 {
-  switch(v.getType())
-  {
-  case Xml::Variant::elementType: dump(v.toElement(), pos); break;
-  case Xml::Variant::textType: fprintf(O, " t "); hexs(v.toString()); break;
-  default: fprintf(O, " nul"); break;
-  }
+  // the three type tests of the public interface, cross-checked against getType()
+  bool el = v.isElement(), tx = v.isText(), nu = v.isNull();
+  Xml::Variant::Type ty = v.getType();
+  if(el != (ty == Xml::Variant::elementType) || tx != (ty == Xml::Variant::textType) || nu != (ty == Xml::Variant::nullType))
+    fprintf(O, " !type-tests-disagree-with-getType");
+  if(el) dump(v.toElement(), pos);
+  else if(tx) { fprintf(O, " t "); hexs(v.toString()); }
+  else fprintf(O, " nul");
 }
 
 static void dump(const Xml::Element& e, bool pos)
@@ -102,6 +105,19 @@ static char* resultString(bool ok, const Xml::Parser& parser, const Xml::Element
   return buf;
 }
 
+// the answer of a static entry point: "ok <dump>" or "serr <Error::getErrorString()>"
+static char* staticResultString(bool ok, const Xml::Element& element)
+{
+  char* buf = 0; size_t n = 0;
+  FILE* keep = O;
+  O = open_memstream(&buf, &n);
+  if(ok) { fprintf(O, "ok"); dump(element, true); }
+  else { fprintf(O, "serr "); hexs(Error::getErrorString()); }
+  fclose(O);
+  O = keep;
+  return buf;
+}
+
 // exact-size heap copy (n bytes + terminator) so that ASan sees any read beyond it
 static char* exactCopy(const unsigned char* d, size_t n)
 {
@@ -140,11 +156,43 @@ enum { maxDepth = 4096, nslots = 6 };
 static Xml::Element* stack[maxDepth];
 static int depth = 0;
 static Xml::Variant* slot[nslots];
+// a reference obtained from slot[heldSlot]->toElement() and kept across operations (audit C16, finding 3).
+// Protocol: it is dropped as soon as an operation targets that slot; while the slot is untouched the Variant in
+// it keeps the block alive, so the reference never dangles.
+static Xml::Element* held = 0;
+static int heldSlot = -1;
 
 static void reset()
 {
+  held = 0; heldSlot = -1;
   while(depth > 0) delete stack[--depth];
   for(int i = 0; i < nslots; ++i) { delete slot[i]; slot[i] = 0; }
+}
+
+// ---- scratch file next to the harness executable (build/<id>/), one per process ----
+static char scratchPath[600];
+static void removeScratch() { if(scratchPath[0]) unlink(scratchPath); }
+static const char* scratch()
+{
+  if(!scratchPath[0])
+  {
+    char exe[512];
+    ssize_t n = readlink("/proc/self/exe", exe, sizeof(exe) - 1);
+    if(n <= 0) { strcpy(exe, "/tmp/x"); n = 6; }
+    exe[n] = 0;
+    char* slash = strrchr(exe, '/');
+    if(slash) *slash = 0;
+    snprintf(scratchPath, sizeof(scratchPath), "%s/xml_scratch.%ld.xml", exe, (long)getpid());
+    atexit(removeScratch);
+  }
+  return scratchPath;
+}
+static void writeScratch(const unsigned char* d, size_t n)
+{
+  FILE* f = fopen(scratch(), "wb");
+  if(!f) { printf("!cannot-write-scratch-file"); return; }
+  if(n) fwrite(d, 1, n, f);
+  fclose(f);
 }
 
 static void begin(long, vh::Tok&) { reset(); }
@@ -174,7 +222,112 @@ static void op(long c, long, vh::Tok& t)
 {
   const char* o = t.v[0];
   int i, j;
-  if(!strcmp(o, "parse")) {
+  // an operation that targets the slot a kept reference came from ends the use of that reference
+  if(o[0] == 'v' && strcmp(o, "vdump") && strcmp(o, "vwriteheld") && t.n >= 2 && held && atoi(t.v[1]) == heldSlot) { held = 0; heldSlot = -1; }
+  if(!strcmp(o, "vhold")) {
+    // Element& e = slot[i].toElement();  - kept, no write
+    if(slotOk(t.v[1], i) && slot[i]) { held = &slot[i]->toElement(); heldSlot = i; } else { held = 0; heldSlot = -1; }
+  } else if(!strcmp(o, "vwriteheld")) {
+    // e.type = nm;  through the kept reference
+    if(held) held->type = unhexs(t.v[1]);
+  } else if(!strcmp(o, "fload") && t.n >= 3) {
+    // the bytes go into a scratch file; p: Xml::Parser::load, s: static Xml::load; the target holds the tree built so far
+    // first section: 1 iff the answer is that of parse (fresh Parser / static Xml::parse, fresh Element) on the same bytes
+    size_t n; unsigned char* d = vh::unhex(t.v[2], n);
+    writeScratch(d, n);
+    char* text = exactCopy(d, n); free(d);
+    {
+      Xml::Element target = current();
+      String path(scratch(), strlen(scratch()));
+      char* ans; char* ref;
+      if(t.v[1][0] == 'p') {
+        Xml::Parser parser;
+        bool ok = parser.load(path, target);
+        ans = resultString(ok, parser, target);
+        ref = freshResult(text, n);
+      } else {
+        Error::setErrorString(String("stale"));
+        bool ok = Xml::load(path, target);
+        ans = staticResultString(ok, target);
+        Xml::Element fresh;
+        Error::setErrorString(String("stale"));
+        bool ok2 = Xml::parse((const char*)text, fresh);
+        ref = staticResultString(ok2, fresh);
+      }
+      printf("%ld fload %d | %s\n", c, strcmp(ans, ref) ? 0 : 1, ans);
+      free(ans); free(ref);
+    }
+    free(text);
+    removeScratch();
+  } else if(!strcmp(o, "fmiss") && t.n >= 3) {
+    // a file that does not exist.  p: one Parser first parses <text> (so that its error fields hold something), then load;
+    // s: static Xml::load.  d / D: the same two on a path that can be opened but not read (a directory: readAll fails).
+    // Output: the failure as reported | the target afterwards (must be what it was)
+    removeScratch();
+    size_t n; unsigned char* d = vh::unhex(t.v[2], n);
+    char* text = exactCopy(d, n); free(d);
+    {
+      Xml::Element target = current();
+      char m = t.v[1][0];
+      String path(scratch(), strlen(scratch()));
+      if(m == 'd' || m == 'D') { const char* sl = strrchr(scratch(), '/'); path = String(scratch(), sl ? (size_t)(sl - scratch()) : 1); }
+      printf("%ld fmiss ", c);
+      if(m == 'p' || m == 'd') {
+        Xml::Parser parser;
+        Xml::Element tmp;
+        String data; data.attach(text, n);
+        parser.parse(data, tmp);
+        bool ok = parser.load(path, target);
+        if(ok) printf("loaded?!");
+        else { printf("lerr %d %d ", parser.getErrorLine(), parser.getErrorColumn()); hexs(parser.getErrorString()); }
+      } else {
+        Error::setErrorString(String("stale"));
+        bool ok = Xml::load(path, target);
+        if(ok) printf("loaded?!");
+        else { printf("lfail "); hexs(Error::getErrorString()); }
+      }
+      printf(" |");
+      dump(target, true);
+      printf("\n");
+    }
+    free(text);
+  } else if(!strcmp(o, "fsave") && t.n >= 2) {
+    // Xml::save of the tree built so far; 1: into the scratch file (its bytes are read back with fread), 0: into a directory that does not exist
+    Xml::Element e = current();
+    bool good = t.v[1][0] == '1';
+    char bad[700]; snprintf(bad, sizeof(bad), "%s.nodir/x.xml", scratch());
+    const char* p = good ? scratch() : bad;
+    removeScratch();
+    if(good) { unsigned char junk[3000]; memset(junk, 'J', sizeof(junk)); writeScratch(junk, sizeof(junk)); }   // save replaces what the file held
+    bool ok = Xml::save(e, String(p, strlen(p)));
+    printf("%ld fsave %d ", c, ok ? 1 : 0);
+    FILE* f = fopen(p, "rb");
+    if(!f) printf("-");
+    else {
+      String all;
+      char buf[4096]; size_t k;
+      while((k = fread(buf, 1, sizeof(buf), f)) > 0) all.append(buf, k);
+      fclose(f);
+      hexs(all);
+    }
+    printf("\n");
+    removeScratch();
+  } else if(!strcmp(o, "fsl")) {
+    // Xml::save, then Xml::Parser::load of the same file into an Element that holds a copy of the tree
+    Xml::Element e = current();
+    String path(scratch(), strlen(scratch()));
+    removeScratch();
+    { unsigned char junk[3000]; memset(junk, 'J', sizeof(junk)); writeScratch(junk, sizeof(junk)); }             // save replaces what the file held
+    bool saved = Xml::save(e, path);
+    Xml::Element target = current();
+    Xml::Parser parser;
+    bool ok = parser.load(path, target);
+    printf("%ld fsl ", c);
+    if(!saved) printf("save-failed ");
+    printResult(ok, parser, target);
+    printf("\n");
+    removeScratch();
+  } else if(!strcmp(o, "parse")) {
     size_t n; unsigned char* d = vh::unhex(t.v[1], n);
     printf("%ld ", c);
     parseOut(d, n);
